@@ -73,6 +73,9 @@ pub struct Scn {
     /// object_receive_once = false
     #[serde(default)]
     pub receive_once_off: bool,
+    /// fdt_again_after_jump: no cleanup() between the clock jump and the second delivery of the instance
+    #[serde(default)]
+    pub again_without_cleanup: bool,
 }
 
 /// The datagram as it is delivered: flute's own, or with EXT_TIME re-encoded as SCT-High only.
@@ -155,6 +158,7 @@ pub fn gen(rng: &mut Rng, _tier: Tier) -> Scn {
         time_ext_without_sct: if rng.chance(0.3) { rng.range(1, 3) as u8 } else { 0 },
         fdt_again_after_jump: rng.chance(0.5),
         receive_once_off: rng.chance(0.25),
+        again_without_cleanup: rng.chance(0.5),
     }
 }
 
@@ -197,7 +201,9 @@ fn receive_with_offset(scn: &Scn, ctx: &Ctx, sess: &Session, offset_s: i64, t_f:
         if again && !redelivered && t >= second_phase {
             // the clock has jumped: housekeeping, then the carousel repetition of the instance, then the object
             redelivered = true;
-            rr.cleanup(t);
+            if !scn.again_without_cleanup {
+                rr.cleanup(t);
+            }
             for f in &fdt_pkts {
                 rr.push(&ep, &on_wire(scn, f), t);
             }
@@ -524,10 +530,19 @@ pub fn run(scn: &Scn, ctx: &Ctx, scratch: &Path) {
         let mut margin = (est_at_attach - expires_us as i128).abs().min((est_at_reception - expires_us as i128).abs());
         let mut allowed = !scn.check || (est_at_attach <= expires_us as i128 && est_at_reception <= expires_us as i128);
         if fdt_again(scn, t_f, t_o, lost.is_some()) {
-            // the instance arrives a second time right before the object, on the jumped clock: that reception counts
-            margin = (est_at_attach - expires_us as i128).abs();
-            allowed = !scn.check || est_at_attach <= expires_us as i128;
             ctx.borrow_mut().count_fault("fdt-redelivered-after-clock-jump");
+            if !scn.again_without_cleanup {
+                // the instance arrives a second time right before the object, on the jumped clock: that reception counts
+                margin = (est_at_attach - expires_us as i128).abs();
+                allowed = !scn.check || est_at_attach <= expires_us as i128;
+            } else if scn.check && est_at_reception > expires_us as i128 {
+                // without housekeeping in between, whether an instance id once judged expired is judged anew is not
+                // specified (flute forgets the verdict at the next cleanup()): no expectation
+                ctx.borrow_mut().note("relax:expired-verdict-kept-until-cleanup");
+                let _ = receive_with_offset(scn, ctx, &sess, *off, t_f, lost);
+                continue;
+            }
+            // (second copy of an instance received valid the first time: the first reception and the attach instant count)
         }
         let ((exact, wrong, failed), tr) = receive_with_offset(scn, ctx, &sess, *off, t_f, lost);
         traces.push((*off, tr));
